@@ -27,6 +27,7 @@ class Cell:
     path_timeout: int = 30
     note: str = ''
     family: str = ''
+    weight: int = 1   # scheduling hint only: heavier cells are started first
 
     def argnames(self) -> List[str]:
         out = []
